@@ -81,6 +81,10 @@ inductive Op where
   | send (c g u n fee : Nat)
   /-- precompile `crossChain` with the group's ERC-20 token -/
   | xsend (c g u n fee : Nat)
+  /-- precompile `crossChain` with the zero token address and `msg.value = n + fee` (FX itself) -/
+  | vsend (c g u n fee : Nat)
+  /-- precompile `increaseBridgeFee` with the group's ERC-20 token -/
+  | xincfee (c id u g n : Nat)
   /-- `MsgCancelSendToExternal` / precompile `cancelSendToExternal` -/
   | cancel (c id u : Nat)
   /-- `MsgIncreaseBridgeFee` with a coin of the bridge denomination of `(g, c)` -/
@@ -172,7 +176,7 @@ def envOk (cfg : Cfg) (cs : ChainSt) (tokens : List (Nat × Nat)) : Bool :=
   !cfg.envBound || tokens.all (fun t => !locks cfg t.1 || decide (tokensValue t.1 tokens ≤ cs.ext t.1))
 
 def Op.chain? : Op → Option Nat
-  | .deposit c .. | .send c .. | .xsend c .. | .cancel c .. | .incfee c .. | .batch c .. | .executed c ..
+  | .deposit c .. | .send c .. | .xsend c .. | .vsend c .. | .xincfee c .. | .cancel c .. | .incfee c .. | .batch c .. | .executed c ..
   | .btimeout c .. | .bcout c .. | .bcresult c .. | .bctimeout c .. | .bcin c .. | .bcinfail c .. => some c
   | _ => none
 
@@ -426,6 +430,23 @@ def stepCore (cfg : Cfg) (s : State) : Op → Except Err State
     let cs := s.chains c
     let s1 ← run s (precompileTokenIn kp g (U u) (n + fee) ++ baseCoinToBridgeToken k g c (U u) (n + fee))
     pure (finish s1 c { cs with pool := ⟨cs.nextTx, u, g, n, fee, true⟩ :: cs.pool, nextTx := cs.nextTx + 1 } [] [])
+  | .vsend c g u n fee => do
+    if n = 0 then .error .invalid else
+    -- the zero token address stands for the origin token: only FX travels as `msg.value`
+    if cfg.kind g ≠ some .fx then .error .notFound else
+    let some k := bridged cfg g c | .error .notFound
+    let cs := s.chains c
+    let s1 ← run s (valueIn g (U u) (n + fee) ++ baseCoinToBridgeToken k g c (U u) (n + fee))
+    pure (finish s1 c { cs with pool := ⟨cs.nextTx, u, g, n, fee, false⟩ :: cs.pool, nextTx := cs.nextTx + 1 } [] [])
+  | .xincfee c id u g n => do
+    if n = 0 then .error .invalid else
+    let some kp := cfg.kind g | .error .notFound
+    let cs := s.chains c
+    let some (tx, rest) := extract (·.id == id) cs.pool | .error .notFound
+    let some k := bridged cfg g c | .error .notFound
+    if tx.g ≠ g then .error .invalid else
+    let s1 ← run s (precompileTokenIn kp g (U u) n ++ feeToBridgeDenom k g c (U u) n ++ addBridgeFee k g c (U u) n)
+    pure (finish s1 c { cs with pool := { tx with fee := tx.fee + n } :: rest } [] [])
   | .cancel c id u => do
     let cs := s.chains c
     let some (tx, rest) := extract (·.id == id) cs.pool | .error .notFound
